@@ -31,8 +31,8 @@ Proof.
   - destruct (F x) as [e|] eqn:Ex; [|discriminate].
     destruct (map_opt F xs) as [es'|] eqn:E; [|discriminate]. inversion H; subst.
     cbn [filter]. rewrite (HT x e (or_introl eq_refl) Ex).
-    change (entry_vals mu (e :: es')) with (entry_vals mu [e] ++ entry_vals mu es').
-    rewrite app_length. rewrite (IH es' eq_refl) by (intros j e' Hj; apply HT; right; exact Hj).
+    unfold entry_vals in *. cbn [flat_map]. rewrite app_length.
+    rewrite (IH es' eq_refl) by (intros j e' Hj; apply HT; right; exact Hj).
     destruct e; reflexivity.
 Qed.
 
